@@ -45,6 +45,33 @@ def specs(T):
         ('HaarConv', 'result[k] = math.sqrt(stepHalfSize / 2) * (lowNonNormed / lowWeightSum + highNonNormed / highWeightSum)'),
         ('UnifyLevels', 'last_pos = baseLevel[-1] + windowSize if len(baseLevel) else -1'),
         ('one_chrom', "haarSeg(cnarr.smooth_log2(), fdr_q, W=cnarr['weight'].values if 'weight' in cnarr else None)"),
+        # the code paths of the clean-step / segment-mean / table theorems
+        ('FDRThres', 'if M < 2:\n        return 0'),
+        ('haarSeg', 'if rawI:'),
+        ('haarSeg', 'T = FDRThres(convRes[peakLoc], breaksFdrQ, peakSigmaEst)'),
+        ('haarSeg', 'segs = SegmentByPeaks(I, breakpoints, W)'),
+        ('haarSeg', 'segSt = np.insert(breakpoints, 0, 0)'),
+        ('haarSeg', 'segEd = np.append(breakpoints, len(I))'),
+        ('haarSeg', "return {'start': segSt, 'end': segEd - 1, 'size': segEd - segSt, 'mean': segs[segSt]}"),
+        ('HaarConv', 'for k in range(1, signalSize):'),
+        ('HaarConv', 'highEnd = k + stepHalfSize - 1'),
+        ('HaarConv', 'highEnd = signalSize - 1 - (highEnd - signalSize)'),
+        ('HaarConv', 'lowEnd = k - stepHalfSize - 1'),
+        ('HaarConv', 'lowEnd = -lowEnd - 1'),
+        ('HaarConv', 'result[k] = result[k - 1] + signal[highEnd] + signal[lowEnd] - 2 * signal[k - 1]'),
+        ('FindLocalPeaks', 'for k in range(1, len(signal) - 1):'),
+        ('FindLocalPeaks', 'sig_prev, sig_curr, sig_next = signal[k - 1:k + 2]'),
+        ('FindLocalPeaks', 'if sig_curr > sig_prev and sig_curr > sig_next:\n                peakLoc.append(k)'),
+        ('FindLocalPeaks', 'if sig_curr < sig_prev and sig_curr < sig_next:\n                peakLoc.append(k)'),
+        ('SegmentByPeaks', 'for seg_start, seg_end in zip(np.insert(peaks, 0, 0), np.append(peaks, len(data))):'),
+        ('SegmentByPeaks', 'if weights is not None and weights[seg_start:seg_end].sum() > 0:'),
+        ('SegmentByPeaks', 'val = np.average(data[seg_start:seg_end], weights=weights[seg_start:seg_end])'),
+        ('SegmentByPeaks', 'val = np.mean(data[seg_start:seg_end])'),
+        ('SegmentByPeaks', 'segs[seg_start:seg_end] = val'),
+        ('one_chrom', "'start': cnarr['start'].values.take(results['start']), 'end': cnarr['end'].values.take(results['end']), "
+                      "'log2': results['mean'], 'gene': '-', 'probes': results['size']"),
+        ('segment_haar', 'chrom_tables = [one_chrom(subprobes, fdr_q, chrom) for chrom, subprobes in cnarr.by_arm()]'),
+        ('segment_haar', 'segarr = cnarr.as_dataframe(pd.concat(chrom_tables))'),
     ]:
         T.body_contains(H, fn, frag)
     return {'HaarDefaults': [
